@@ -557,6 +557,42 @@ def run(prog, ctx):
                 ctx.fail("M11", inst11, node.where, why, key="insert-position:%s" % h.name)
             else:
                 ctx.inconclusive("M11", inst11, node.where, why)
+    # ---- M11c the position found while scanning is the one used: the default position (end of the list / front for group-less keys)
+    # does not replace it, and it IS taken when the scan found no entry of the section (decided on consistent paths through the flags)
+    for h, st, l, inner in charges.get("override", []):
+        idxv = l.children[1].strip()
+        if idxv.k != "DeclRefExpr":
+            continue
+        v = idxv.j["name"]
+        cfg = h.cfg
+        ohb = cfg.loop_header(inner)
+        scans9 = [x for x in inner.child("body").walk() if x.k in ("ForStmt", "WhileStmt")]
+        match_st = [s9 for l9, r9, s9, k9 in query.stores(h) if render(l9) == v and k9 == "=" and r9 is not None and any(s9.within(sc9) for sc9 in scans9)]
+        dflt_st = [s9 for l9, r9, s9, k9 in query.stores(h) if render(l9) == v and k9 == "=" and r9 is not None and s9.within(inner) and not any(s9.within(sc9) for sc9 in scans9)]
+        if len(match_st) != 1 or len(dflt_st) != 1:
+            continue
+        mb, db, ib = cfg.block_of(match_st[0]), cfg.block_of(dflt_st[0]), cfg.block_of(st)
+        back = lambda lit, b3, i3: cfg.blocks[b3].succs[i3] == ohb
+        pos9 = cfg.index_of(match_st[0])
+        over = cfg.feasible_reach(db, back, lambda a2: re.match(r"^[\w$.]+$", a2) is not None, start=mb, start_index=0)
+        inst11c = "%s: the position found in the section is the one used" % h.name
+        if over is not None and ib in cfg.reachable(db, avoid_blocks=[ohb]):
+            ctx.fail("M11", inst11c, dflt_st[0].where,
+                     "after `%s` (an entry of the section was found) the same round can still reach `%s`: the entry is put at the end of the list / in front of it "
+                     "instead of behind its section" % (render(match_st[0]), render(dflt_st[0])[:60]), key="insert-default-overrides:%s" % h.name, path=cfg.describe_path(over)[-6:])
+        else:
+            ctx.ok("M11", inst11c, match_st[0].where, "the default position is unreachable once `%s` was stored in that round" % render(match_st[0]))
+        # no entry of the section found: the default must be taken
+        succ9 = {(b9, i9): t9 for (b9, i9, t9) in cfg.edges()}
+        miss = cfg.feasible_reach(db, lambda lit, b3, i3: succ9.get((b3, i3)) == mb or succ9.get((b3, i3)) == ohb, lambda a2: re.match(r"^[\w$.]+$", a2) is not None,
+                                  start=cfg.loop_body_entry(inner))
+        inst11d = "%s: a section the result does not have gets the default position" % h.name
+        if miss is None:
+            ctx.fail("M11", inst11d, dflt_st[0].where,
+                     "`%s` cannot be reached in a round in which the scan found no entry of the section: the insertion index keeps its initial value - entries of a "
+                     "new section are put in front of everything" % render(dflt_st[0])[:60], key="insert-default-unreachable:%s" % h.name)
+        else:
+            ctx.ok("M11", inst11d, dflt_st[0].where, "reachable when the scan stores no position")
     # ---- M11b "section not found" is decided on something that cannot also be a position ----------------------------------------
     m11b_fns = {}
     for h, st, l, inner in charges.get("override", []):
